@@ -40,9 +40,21 @@ const DAOIndex = 900
 // EmptyIndex names the zero-length address.
 const EmptyIndex = 901
 
+// FeeIndex, PosIndex: the addresses of the fee collector and of the pos module account.
+const (
+	FeeIndex = 902
+	PosIndex = 903
+)
+
 func Addr(i int) sdk.Address {
 	if i == DAOIndex {
 		return sdk.Address(DAOAddr)
+	}
+	if i == FeeIndex {
+		return sdk.Address(FeeAddr)
+	}
+	if i == PosIndex {
+		return sdk.Address(PosAddr)
 	}
 	if i == EmptyIndex {
 		return sdk.Address{}
